@@ -504,8 +504,32 @@ func (x *Exec) applyContract(c *Contract, fn *types.Func, recv *Value, args []*V
 		x.oblige(st, "requires", shortKey(c.Key)+"/"+clauseName(r, i), t, call)
 		x.assume(st, t)
 	}
-	// frame
+	// frame. A location L with a postcondition of the shape "L == E" (E over old values) is
+	// assigned E directly instead of being havocked and constrained: same meaning, smaller terms.
+	direct := map[string]*Value{}
 	for _, m := range c.Modifies {
+		for _, e := range c.Ensures {
+			if e.Local || e.Assumed {
+				continue
+			}
+			be, ok := parseSpec(e).(*ast.BinaryExpr)
+			if !ok || be.Op != token.EQL || specString(be.X) != strings.ReplaceAll(m, " ", "") {
+				continue
+			}
+			if v, ok := x.tryEvalSpecVal(be.Y, sc, st); ok {
+				direct[m] = v
+			}
+			break
+		}
+	}
+	for _, m := range c.Modifies {
+		if v, ok := direct[m]; ok {
+			locs := x.specLocs(m, sc, st, c)
+			if len(locs) == 1 && locs[0].ptr != nil && v.Tm != nil {
+				x.store(st, locs[0].ptr, locs[0].t, &Value{T: locs[0].t, Tm: x.vc.define("r", v.Tm)})
+				continue
+			}
+		}
 		x.havocSpecLoc(m, sc, st, c)
 	}
 	// results declared fresh are allocated from the caller's frontier, so that their
@@ -520,13 +544,30 @@ func (x *Exec) applyContract(c *Contract, fn *types.Func, recv *Value, args []*V
 	if freshRes && sig.Results().Len() > 0 && isRefLike(sig.Results().At(0).Type()) {
 		freshRef = x.alloc(st)
 	}
-	x.bumpAlloc(st)
+	if !c.NoAlloc {
+		x.bumpAlloc(st)
+	}
+	// a postcondition "result == <parameter>" binds the result to that argument directly
+	var aliasRes *Value
+	for _, e := range c.Ensures {
+		if be, ok := parseSpec(e).(*ast.BinaryExpr); ok && be.Op == token.EQL {
+			if l, ok := be.X.(*ast.Ident); ok && l.Name == "result" {
+				if r, ok := be.Y.(*ast.Ident); ok {
+					if av, ok := sc.names[r.Name]; ok && (av.P != nil || av.Tm != nil) {
+						aliasRes = av
+					}
+				}
+			}
+		}
+	}
 	// results
 	var results []*Value
 	for i := 0; i < sig.Results().Len(); i++ {
 		rt := sig.Results().At(i).Type()
 		var v *Value
-		if i == 0 && freshRef != nil {
+		if i == 0 && aliasRes != nil {
+			v = x.coerce(aliasRes, rt)
+		} else if i == 0 && freshRef != nil {
 			if isPointer(rt) {
 				v = &Value{T: rt, P: &Pointer{Base: freshRef}}
 			} else {
@@ -562,6 +603,13 @@ func (x *Exec) applyContract(c *Contract, fn *types.Func, recv *Value, args []*V
 			}
 			x.assume(st, t)
 			continue
+		}
+		if aliasRes != nil && aliasRes.P != nil && !aliasRes.P.simple() {
+			if be, ok := parseSpec(e).(*ast.BinaryExpr); ok && be.Op == token.EQL {
+				if l, ok := be.X.(*ast.Ident); ok && l.Name == "result" {
+					continue
+				}
+			}
 		}
 		x.assume(st, x.evalSpecBool(e, sc, st))
 	}
@@ -865,4 +913,36 @@ func (x *Exec) tryEvalSpecBool(c Clause, sc *SpecScope, st *State) (t *Term, ok 
 		}
 	}()
 	return x.evalSpecBool(c, sc, st), true
+}
+
+func (x *Exec) tryEvalSpecVal(e ast.Expr, sc *SpecScope, st *State) (v *Value, ok bool) {
+	defer func() {
+		if r := recover(); r != nil {
+			v, ok = nil, false
+		}
+	}()
+	x.dry++
+	defer func() { x.dry-- }()
+	return x.evalSpec(e, sc, st), true
+}
+
+// specString renders a (small) contract expression without spaces, for syntactic comparison.
+func specString(e ast.Expr) string {
+	switch e := e.(type) {
+	case *ast.Ident:
+		return e.Name
+	case *ast.StarExpr:
+		return "*" + specString(e.X)
+	case *ast.SelectorExpr:
+		return specString(e.X) + "." + e.Sel.Name
+	case *ast.ParenExpr:
+		return "(" + specString(e.X) + ")"
+	case *ast.CallExpr:
+		var as []string
+		for _, a := range e.Args {
+			as = append(as, specString(a))
+		}
+		return specString(e.Fun) + "(" + strings.Join(as, ",") + ")"
+	}
+	return "?"
 }
